@@ -5,6 +5,7 @@ mod bcj2;
 mod c06;
 mod c11;
 mod codec;
+mod fastw;
 mod fault;
 mod opts;
 mod mem;
